@@ -1,7 +1,7 @@
 from props_common import BASE_TB
 
 PROP = {
-    "modules": ["YorkieModel.Props.C17"],
+    "modules": ["YorkieModel.Props.C17", "YorkieModel.Props.C17Watch"],
     "engines": [
         # lock-granularity schedules driven through the `verif` yield hooks; workers 0..7 each
         # explore one small configuration exhaustively (state-pruned DFS), then sample larger ones
@@ -16,15 +16,23 @@ PROP = {
          "quick": {"n": 24, "workers": 2},
          "thorough": {"n": 96, "workers": 4},
          "thorough_race": {"n": 9600, "workers": 8, "binary": "yk-harness-race"}},
+        # the glue around the PubSub (server/rpc Watch stream, packs.PushPull publish step): request
+        # sequences on a real in-process server, raw unified Watch streams, SDK pushes of every kind;
+        # batch publishers in manual-tick mode, observations taken at barrier events
+        {"name": "watch",
+         "quick": {"n": 800, "workers": 8},
+         "thorough": {"n": 40000, "workers": 10}},
     ],
     "extra_builds": [{"name": "yk-harness-race", "flags": ["-race"], "tiers": ["thorough"]}],
     "trusted_base": BASE_TB + [
+        "factgen/watch.go: syntactic extraction (go/ast) of the if-conditions enclosing be.PubSub.Publish in packs.PushPull, of the error branches and the cleanup closure of subscribeResources, of the deferred unwatch of Watch and of the PubSub calls of watchDoc/unwatchDoc; Model/Watch.lean is the hand-written reading of these forms (Cfg.real), tied by the `watch` engine",
+        "watch engine: subscriber sets read through PubSub.ClientIDs, log heads from the memory DB, DocChanged deliveries observed on raw v1connect Watch streams up to a barrier event per document (manual-tick hook, backend WaitGroup reached by reflection)",
         "yield hooks in server/backend/pubsub (build tag verif: verif_hook.go + one-line verifYield calls at lock boundaries, manual tick case in processLoop); with the tag off they compile to empty functions",
         "harness scheduler: one goroutine released for one critical section per command; goroutine identity via runtime.Stack",
         "cmap.Upsert/Get/Delete(callback) atomic per key (one shard RWMutex); Subscriptions.Len()/Values() read as one atomic snapshot (the 32 inner shards are read one after the other in Go; argued sound for the properties in Model/PubSub.lean, not modelled)",
         "one document key; Go memory model / data races are not modelled (race detector in the thorough stress run only)",
     ],
-    "level_text": "Theorems in Lean over every reachable state of a lock-granularity transition system of Subscribe/Unsubscribe/Publish/process loop/watchers (unbounded numbers of calls, any interleaving): no send on or double close of a subscription channel, closeChan closed at most once, map entry <=> open object, a finished Publish is followed by a notification (or closed stream) at every earlier subscriber of another client by the end of the next flush, nothing is left in the map once all have unsubscribed; negation witnesses for the two stronger readings that are false of the code; tied to server/backend/pubsub by yield-hook driven differential replay.",
+    "level_text": "Theorems in Lean over every reachable state of a lock-granularity transition system of Subscribe/Unsubscribe/Publish/process loop/watchers (unbounded numbers of calls, any interleaving): no send on or double close of a subscription channel, closeChan closed at most once, map entry <=> open object, a finished Publish is followed by a notification (or closed stream) at every earlier subscriber of another client by the end of the next flush, nothing is left in the map once all have unsubscribed; negation witnesses for the two stronger readings that are false of the code; tied to server/backend/pubsub by yield-hook driven differential replay. Glue (Props/C17Watch): a request-level model of the unified Watch stream and of the publish step of packs.PushPull - a Watch request that fails leaves every subscription set unchanged, nothing is left once every stream has ended, every step that grows a document log publishes exactly one DocChanged of that document and client; the two decision points (cleanup() in every error branch of subscribeResources, the if-condition guarding the publish block) are re-read from the Go source on every run (Generated/Watch.lean) and proved by evaluation to be the modelled forms; tied by the `watch` engine on a real server.",
     "level_note": "Trusted: Lean kernel; the hand-written Model/PubSub.lean agrees with the Go code as far as the pubsub engine's schedules exercise it (exhaustive over scheduler choices for the listed small configurations, sampled for up to 4 subscribers + 3 publishers); wall-clock bounds are outside the model.",
     "technique": "Lean 4 proof (invariants by induction over steps of a small-step model) + yield-point driven differential replay + free-running stress (-race in thorough tier)",
     "partial": [
